@@ -31,11 +31,12 @@ def succs(fn, bb, unwind=False):
 
 
 class CFG:
-    def __init__(self, fn, unwind=False):
+    def __init__(self, fn, unwind=False, pruned=()):
         self.fn = fn
         self.unwind = unwind
         self.n = len(fn.blocks)
-        self.succ = [succs(fn, i, unwind) for i in range(self.n)]
+        pruned = set(pruned)
+        self.succ = [[s for s in succs(fn, i, unwind) if (i, s) not in pruned] for i in range(self.n)]
         self.pred = [[] for _ in range(self.n)]
         for i, ss in enumerate(self.succ):
             for s in ss:
@@ -214,4 +215,37 @@ def cfg(fn, unwind=False):
     if c is None:
         c = CFG(fn, unwind)
         fn._cache[key] = c
+    return c
+
+
+def cfg_assuming(prog, fn, name, value):
+    """SPEC(F | name = value): the CFG of fn with the switch edges removed that are infeasible when
+    the boolean parameter / captured variable called `name` has the constant `value`."""
+    key = ('cfg_assume', name, value)
+    c = fn._cache.get(key)
+    if c is not None:
+        return c
+    from .expr import switch_info
+    pruned = set()
+    for i, b in enumerate(fn.blocks):
+        t = b['term']
+        if t['k'] != 'switch':
+            continue
+        e, kind, labels, adt = switch_info(prog, fn, i)
+        neg = False
+        while isinstance(e, tuple) and e[0] == 'un' and e[1] == 'Not':
+            e = e[2]
+            neg = not neg
+        is_it = isinstance(e, tuple) and ((e[0] == 'param' and e[2] == name) or (e[0] == 'upvar' and e[1] == name) or (e[0] == 'var' and e[1] == name))
+        if not is_it or kind != 'bool':
+            continue
+        want = (not value) if neg else value
+        for v, tgt in t['targets']:
+            lab = labels.get(v, v)
+            if lab is not want and lab in (True, False):
+                pruned.add((i, tgt))
+        if labels.get('otherwise') is not want:
+            pruned.add((i, t['otherwise']))
+    c = CFG(fn, False, pruned)
+    fn._cache[key] = c
     return c
